@@ -1693,7 +1693,10 @@ std::string Generator::GeneratorImpl::generateCode(const AnalyserEquationAstPtr 
 
         break;
     case AnalyserEquationAst::Type::CI:
-        code = generateVariableNameCode(ast->variable(), ast->parent()->type() != AnalyserEquationAst::Type::DIFF);
+        // Note: a CI node may have no parent (e.g. the "equation" <ci>x</ci>,
+        //       for which the analyser quotes the code in its issue).
+
+        code = generateVariableNameCode(ast->variable(), (ast->parent() == nullptr) || (ast->parent()->type() != AnalyserEquationAst::Type::DIFF));
 
         break;
     case AnalyserEquationAst::Type::CN:
